@@ -105,7 +105,7 @@ theorem realEph_leap_le (y : Int) : realEph.leap y ≤ 12 := by
     · rename_i h1 h2
       by_cases hlt : y.toNat < yearRecs.length
       · have := allRec_spec 512 _ Gen.monthsChunks years_leap_fact y.toNat hlt
-        simp only [Bool.and_eq_true, decide_eq_true_eq] at this
+        simp only [yearLeapOK, Bool.and_eq_true, decide_eq_true_eq] at this
         have e : yearRecs.getD y.toNat 0 = yearRecs[y.toNat]'hlt := by
           simp [List.getD, List.getElem?_eq_getElem hlt]
         rw [e]; exact this.1
